@@ -72,6 +72,8 @@ class Live(object):
                 self.k.remove()
                 raise
         self.values = {}               # RefParams: name -> value, or name -> ("either", a, b)
+        self.bystander = None
+        self.interleaves = 0
         self.refresh()
 
     def refresh(self):
@@ -97,10 +99,48 @@ class Live(object):
             yield list(combo)
 
     def fired(self):
-        return dict(self.k.fired) if self.k is not None else {}
+        f = dict(self.k.fired) if self.k is not None else {}
+        if self.interleaves:
+            f["H.interleave_other_model"] = self.interleaves
+        return f
 
     def levels(self):
         return dict(self.k.levels_used) if self.k is not None else {}
+
+
+BYSTANDER = {"states": [{"name": "U"}, {"name": "W"}], "params": ["k1", "k2"], "derived": [],
+             "processes": [{"rate": "k1*U*W", "trans": [{"type": "T", "o": "U", "d": "W", "mag": "1"}], "route": "event"},
+                           {"rate": "k2*W", "trans": [{"type": "D", "o": "W", "mag": "1"}], "route": "event"}],
+             "odes": [{"state": "U", "eq": "0.1*k2"}]}
+BYSTANDER_THETA = [0.3, 0.7]
+BYSTANDER_POINT = ([2.5, 1.5], 0.5)
+
+
+def bystander(live, op, step, out, stats, log, prefix):
+    """Another client's model, living in the same process, is evaluated between this model's modifications and
+    observations.  Its definition never changes, so it must keep returning what its reference gives; and its
+    activity must not disturb the model under test (checked by the observations that follow)."""
+    if live.bystander is None:
+        live.bystander = build_model(live.pg, copy.deepcopy(BYSTANDER), backend="lambda")
+        live.bystander.parameters = list(BYSTANDER_THETA)
+        live.bystander_ref = RefModel(copy.deepcopy(BYSTANDER), [0, 1])
+    live.interleaves += 1
+    x, t = BYSTANDER_POINT
+    for nm in op["names"]:
+        try:
+            got = np.asarray(evaluate(live.bystander, nm, x, t), float)
+        except core.RunTimeout:
+            raise
+        except Exception as e:
+            out.append(core.crash_failure(prefix, e, step, "%s(x,t) on an unmodified bystander model" % nm))
+            continue
+        want = ref_value(live.bystander_ref, nm, x, t, BYSTANDER_THETA)
+        msg = cmp_arrays(got, want.reshape(expected_shape(live.bystander_ref, nm)), 1e-9, 1e-11, collapse_ok=True)
+        log.append(["by", step, nm, core.digest(got.tolist(), 10)])
+        if msg:
+            out.append(fail("%s.bystander.%s" % (prefix, nm), step,
+                            "%s(x,t) of a second, never modified model changed after the first model was used: %s" % (nm, msg)))
+    stats["bystander_evaluations"] = stats.get("bystander_evaluations", 0) + len(op["names"])
 
 
 def fresh_model(live):
@@ -160,6 +200,18 @@ def check_eval(live, op, step, out, stats, log, prefix, against="ref", tag="eval
         except Exception as e:
             stats["fresh_build_failed"] = stats.get("fresh_build_failed", 0) + 1
             return
+    fresh_first = {}
+    if against == "fresh" and op.get("fresh_first"):
+        # another client evaluates ITS (fresh) model between the modification and this observation: two live
+        # models in one process (H.interleave_other_model)
+        live.interleaves += 1
+        for nm in names:
+            try:
+                fresh_first[nm] = np.asarray(evaluate(fresh, nm, x, t), float)
+            except core.RunTimeout:
+                raise
+            except Exception:
+                fresh_first[nm] = None
     for nm in names:
         try:
             got = evaluate(live.ode, nm, x, t)
@@ -183,7 +235,12 @@ def check_eval(live, op, step, out, stats, log, prefix, against="ref", tag="eval
         log.append(["ev", step, nm, core.digest(got.tolist(), 10)])
         if against == "fresh":
             try:
-                want = np.asarray(evaluate(fresh, nm, x, t), float)
+                if nm in fresh_first:
+                    if fresh_first[nm] is None:
+                        raise ValueError("fresh model could not evaluate")
+                    want = fresh_first[nm]
+                else:
+                    want = np.asarray(evaluate(fresh, nm, x, t), float)
             except Exception:
                 stats["fresh_eval_failed"] = stats.get("fresh_eval_failed", 0) + 1
                 continue
@@ -552,6 +609,8 @@ def execute(case, prefix, eval_against="ref"):
                 mutate(live, op, step, out, stats, log, prefix)
             elif kind == "sens":
                 check_sens(live, op, step, out, stats, log, prefix)
+            elif kind == "bystander":
+                bystander(live, op, step, out, stats, log, prefix)
             else:
                 raise core.HarnessError("unknown op %r" % kind)
             measure.append([compiled_before, kind])
